@@ -122,12 +122,43 @@ def threshold_cases(cases):
     return stat, var, k, dflt
 
 
+def _is_conversion_helper(repo, fn, call):
+    """f(v) where the package function f is `return v.item() if isinstance(v, np.generic) else v` (or `return v.item()`)."""
+    r = repo.resolve_call(fn, call)
+    if r[0] != "pkg" or len(r[1]) != 1:
+        return False
+    h = r[1][0]
+    body = [s_ for s_ in h.node.body if not (isinstance(s_, ast.Expr) and isinstance(s_.value, ast.Constant))]
+    if len(h.params) != 1 or len(body) != 1 or not isinstance(body[0], ast.Return) or body[0].value is None:
+        return False
+    v, p = body[0].value, h.params[0]
+    if isinstance(v, ast.Call) and isinstance(v.func, ast.Attribute) and v.func.attr == "item" and norm(v.func.value) == p:
+        return True
+    return isinstance(v, ast.IfExp) and norm(v.orelse) == p and isinstance(v.body, ast.Call) and isinstance(v.body.func, ast.Attribute) \
+        and v.body.func.attr == "item" and norm(v.body.func.value) == p and ("isinstance(" in norm(v.test) or "hasattr(" in norm(v.test))
+
+
 def stat_name(repo, fn, expr):
     """Identify the statistic computed by an expression: dotted numpy name, 'len', 'len(set)', 'mode1', 'index'."""
     e = expr
-    # strip .item()
-    while isinstance(e, ast.Call) and isinstance(e.func, ast.Attribute) and e.func.attr == "item" and not e.args:
-        e = e.func.value
+    # strip conversions of the result that do not change which statistic it is: E.item(), and the guarded form
+    # `V.item() if isinstance(V, np.generic) else V` (elements of string / object vectors have no .item())
+    for _ in range(4):
+        if isinstance(e, ast.Call) and isinstance(e.func, ast.Attribute) and e.func.attr == "item" and not e.args:
+            e = e.func.value
+        elif isinstance(e, ast.IfExp) and isinstance(e.body, ast.Call) and isinstance(e.body.func, ast.Attribute) and e.body.func.attr == "item" \
+                and norm(e.body.func.value) == norm(e.orelse) and norm(e.orelse) in norm(e.test) and ("isinstance(" in norm(e.test) or "hasattr(" in norm(e.test)):
+            e = e.orelse
+        elif isinstance(e, ast.Call) and len(e.args) == 1 and not e.keywords and fn is not None and _is_conversion_helper(repo, fn, e):
+            e = e.args[0]          # item(np.amax(x)): a package helper that only converts its argument
+        elif isinstance(e, ast.Name) and fn is not None:
+            from .forms import expand as _expand_sn
+            r = _expand_sn(fn, e, e)
+            if isinstance(r, ast.Name):
+                break
+            e = r
+        else:
+            break
     if isinstance(e, ast.Call):
         d = repo.dotted(fn, e.func)
         if d == "builtins.len" and e.args:
